@@ -285,3 +285,19 @@ func freeVarBinding(fv *ssa.FreeVar) ssa.Value {
 	}
 	return nil
 }
+
+// importObligations files another property's obligations under `rule` of res (the other property is a
+// necessary condition of this one: e.g. the proxy-id table of C05 for the acknowledgement properties).
+func importObligations(res *report.Result, from *report.Result, rule string, only func(o report.Obligation) bool) int {
+	n := 0
+	for _, o := range from.Obligations {
+		if only != nil && !only(o) {
+			continue
+		}
+		o.Construct = "[" + o.Rule + "] " + o.Construct
+		o.Rule = rule
+		res.Obligations = append(res.Obligations, o)
+		n++
+	}
+	return n
+}
